@@ -372,7 +372,7 @@ impl Property for C09 {
         for _ in 0..(if consts.is_empty() { nconst } else { 0 }) {
             let n = gen_part(src, &lab_pool_good, BAD_LABELS, p_bad);
             if !consts.iter().any(|(k, _)| *k == n) {
-                consts.push((n, *src.pick(&["v", "", "w"])));
+                consts.push((n, *src.pick(&["v", "", "w", "-1", ":x", "é1", "1x"])));
             }
         }
         let mut nvar = if is_vec {
@@ -527,6 +527,37 @@ impl Property for C09 {
                 sig,
                 format!("{} returned {} but the statement requires {}", describe(), if got_ok { "Ok".to_string() } else { format!("Err({})", made.err().unwrap()) }, if want_ok { "Ok" } else { "Err" }),
             );
+        }
+
+        // ---- right after a call that was accepted, on the same thread: the same metric with one constant label's name/value boundary
+        // moved (zone="-1" becomes zone-="1"); everything else is equal, only the label name changed - the verdict follows the new name
+        if got_ok && !preset && !matches!(ctor, Ctor::Pulling | Ctor::Desc) {
+            if let Some(i) = consts.iter().position(|(_, v)| !v.is_empty()) {
+                let (k, v) = consts[i];
+                let c0 = v.chars().next().unwrap();
+                let k2 = format!("{}{}", k, c0);
+                let v2 = &v[c0.len_utf8()..];
+                let mut names2: Vec<String> = consts.iter().enumerate().map(|(j, c)| if j == i { k2.clone() } else { c.0.to_string() }).collect();
+                names2.extend(vars.iter().map(|s| s.to_string()));
+                let dup2 = {
+                    let mut s = names2.clone();
+                    s.sort();
+                    s.windows(2).any(|w| w[0] == w[1])
+                };
+                let want2 = !names2.iter().any(|l| !label_name_ok(l)) && !dup2 && !(is_hist && names2.iter().any(|l| l == "le"));
+                let mut opts2 = Opts::new(name, help).namespace(ns).subsystem(sub);
+                for (j, (kk, vv)) in consts.iter().enumerate() {
+                    opts2 = if j == i { opts2.const_label(k2.clone(), v2) } else { opts2.const_label(*kk, *vv) };
+                }
+                let got2 = build(opts2).is_ok();
+                if got2 != want2 {
+                    return fail(
+                        if got2 { "invalid-label-name-accepted" } else { "valid-metric-rejected" },
+                        format!("right after {} was accepted, the same call with the constant label {:?}={:?} written as {:?}={:?} returned {} but the statement requires {}", describe(), k, v, k2, v2, if got2 { "Ok" } else { "Err" }, if want2 { "Ok" } else { "Err" }),
+                    );
+                }
+                rep.class("follow-up-call-with-a-shifted-name/value-boundary");
+            }
         }
 
         let nonascii = |s: &str| s.chars().any(|c| !c.is_ascii() && c.is_alphanumeric());
